@@ -214,7 +214,7 @@ class EnvStream(Stream):
         ]
 
     def gen(self, rng, tier):
-        n = 220 if tier == "quick" else 6000
+        n = 220 if tier == "quick" else 4000
         cases = []
         for i in range(n):
             kind = "valid" if i % 10 < 8 else ("exotic" if i % 10 == 8 else "malformed")
